@@ -48,12 +48,12 @@ distinct = distinct hash of (program text, source text, mode).",
             "functions tick/yield (observation only)",
             "getrandom (hash keys derived from the run seed)",
         ],
+        // label-based reach counters (cancel_in_scan, ...) are informational only: poll labels
+        // are internal strings and may be renamed without breaking the property
         required_probes: vec![
-            "probe.cancel_in_lazy_evaluate_phase",
-            "probe.cancel_in_scan",
-            "probe.cancel_in_attribute",
             "probe.cancel_inside_nested_block",
             "probe.template_cases",
+            "probe.cancelled_after_graph_mutation",
         ],
         fault_kinds: vec!["cancel_at_k", "hash_keys"],
     }
@@ -117,6 +117,7 @@ pub struct CaseStats {
     pub fired_in_attr: u64,
     pub fired_nested: u64,
     pub fired_in_match: u64,
+    pub fired_after_mutation: u64,
     pub ticks: u64,
     pub transcript: u64,
 }
@@ -300,7 +301,10 @@ this program executes by construction require at least {}",
             Event::Poll(_, at) => *at,
             _ => unreachable!(),
         };
-        // reach probes
+        // reach probes (structural: a tick before the failing poll saw a non-empty graph)
+        if cnt_log[..poll_pos[(k - 1) as usize]].iter().any(|e| matches!(e, Event::Tick(_, n) if *n > 0)) {
+            st.fired_after_mutation += 1;
+        }
         match at {
             "evaluating statement" | "evaluating value" => st.fired_in_lazy_eval += 1,
             "processing scan matches" => st.fired_in_scan += 1,
@@ -744,6 +748,7 @@ pub fn run_shard(ctx: &ShardCtx, rep: &mut Report) {
         rep.add("probe.cancel_in_scan", st.fired_in_scan);
         rep.add("probe.cancel_in_attribute", st.fired_in_attr);
         rep.add("probe.cancel_in_match_loop", st.fired_in_match);
+        rep.add("probe.cancelled_after_graph_mutation", st.fired_after_mutation);
         if case.text.contains("    ") && st.polls > 0 {
             rep.add("probe.cancel_inside_nested_block", 1);
         }
